@@ -84,8 +84,20 @@ def run_cut(case, chooser):
                 rig.sessions[0].ctl.close()          # only the control connection goes away
             elif kind == "rst":
                 rig.sessions[0].peer.vanish(reset=True)
-            else:
+            elif kind == "close":
                 state["close_task"] = w.loop.create_task(rig.server.close())
+            else:
+                # server.close() while another client is just connecting (handshake finished before / attempted after)
+                def late_connect():
+                    try:
+                        state["late"] = w.peer("late").connect(2121)
+                    except ConnectionRefusedError:
+                        state["late"] = None
+                if kind == "connect+close":
+                    late_connect()
+                state["close_task"] = w.loop.create_task(rig.server.close())
+                if kind == "close+connect":
+                    late_connect()
 
         def on_event(nev):
             if state["cut"] or nev != k:
@@ -260,6 +272,10 @@ def build_items(tier):
                         case = {"script": script, "backend": backend, "cut": cut, "k": k, "second": second,
                                 "explore_all": tier != "quick" and not second}
                         items.append((case, bound, kinds, 3000 if tier == "quick" else 20000))
+                    if not second and backend == "memory" and (tier != "quick" or script in ("login-only", "retr", "stor", "pasv-no-transfer")):
+                        for cut in ("connect+close", "close+connect"):
+                            case = {"script": script, "backend": backend, "cut": cut, "k": k, "j": 0, "second": False}
+                            items.append((case, 1, kinds, 3000))
                     if not second:
                         for j in range(0, 4 if tier == "quick" else 7):
                             case = {"script": script, "backend": backend, "cut": "close", "k": k, "j": j,
@@ -297,7 +313,8 @@ def run(tier, seed, t0):
         k = seed % len(items)
         items = items[k:] + items[:k]
     part = report.merge_all(report.pmap(_work, items))
-    bounds = {"scripts": len(corpus.SCRIPTS), "backends": list(BACKENDS), "cut_kinds": ["fin (all sockets)", "rst", "fin on the control connection only", "server.close()"],
+    bounds = {"scripts": len(corpus.SCRIPTS), "backends": list(BACKENDS), "cut_kinds": ["fin (all sockets)", "rst", "fin on the control connection only", "server.close()",
+                                                                                      "server.close() while another client connects (just before / just after)"],
               "cut_positions": "every delivered network event k of the fault-free run (k=0..N); server.close() "
                                "additionally at iterations j=0..%d after event k; for the throttled server and the slow "
                                "backend additionally before every advance of virtual time (the server sleeps on a timer)"
